@@ -9,7 +9,7 @@ HERE = os.path.dirname(os.path.dirname(os.path.abspath(__file__)))
 os.chdir(HERE)
 ALL = ['C%02d' % i for i in range(1, 19)]
 REV = {'D1': ['C01', 'C04', 'C11'], 'D2': ['C03', 'C04', 'C14'], 'D4': ['C07', 'C08'], 'D5': ['C11'], 'D6': ['C01', 'C11'],
-       'D7': ['C16', 'C17'], 'D8': ['C17']}
+       'D7': ['C16', 'C17'], 'D8': ['C17'], 'D10': ['C15']}
 NEVER = {'mutants/C16-tail4.patch'}      # equivalent variant kept for the record
 idx = {}
 for p in sorted(glob.glob('mutants/*.patch')):
